@@ -98,9 +98,9 @@ def stripR (l : String) : String × Option String :=
 
 /-- outcome of `insert` according to the spec registry -/
 def specInsert (j : JR) (t : Bytes) : String :=
-  match parseTemplates t with
-  | .error _ => "err Template"
-  | .ok ts =>
+  match specParse t with
+  | none => "err Template"
+  | some ts =>
     match firstUnknown (fun c => j.names.contains c) ts with
     | some c => "err UnknownConstraint " ++ hex c
     | none =>
@@ -113,15 +113,28 @@ def owner (live : List LiveT) (parts : List Part) : Option LiveT :=
 
 /-- outcome of `delete` according to the spec registry -/
 def specDelete (j : JR) (t : Bytes) : String :=
-  match parseTemplates t with
-  | .error _ => "err Template"
-  | .ok ts =>
+  match specParse t with
+  | none => "err Template"
+  | some ts =>
     match j.live.find? (·.template == t) with
     | some lt => s!"ok {lt.data}"
     | none =>
       match ts.findSome? (fun e => owner j.live e.2) with
       | some lt => "err Mismatch " ++ hex t ++ " " ++ hex lt.template
       | none => "err NotFound " ++ hex t
+
+/-- C14 on `err Template …` answers of insert/delete; C11: a template error exactly when the grammar rejects -/
+def templateErrOracle (s : JS) (idx : Nat) (t : Bytes) (implCore : String) : JS :=
+  if implCore.startsWith "err Template " then
+    let s := if (specParse t).isSome then s.emit s!"O {idx} C11 template of the documented language rejected: {implCore}" else s
+    match parseTErr ((implCore.splitOn " ").drop 2) with
+    | some e =>
+      let s := s.bump ("terr." ++ firstWord (showTErr e))
+      if !faultPresent t e then s.emit s!"O {idx} C14 reported fault is not present in the template: {implCore}" else s
+    | none => s.emit s!"O {idx} C14 unparsable template error {implCore}"
+  else if (specParse t).isNone && !implCore.startsWith "panic" then
+    s.emit s!"O {idx} C11 a template the grammar rejects was not answered with a template error: {implCore}"
+  else s
 
 def classOf (op : Op) : String :=
   match op with
@@ -212,10 +225,11 @@ def judgeStep (s : JS) (models : List (Nat × Router)) (idx : Nat) (op : Op) (im
         let expect := specInsert j t
         let ok := if expect == "err Template" then implCore.startsWith "err Template" else implCore == expect
         let s := if !ok then s.emit s!"O {idx} C08 insert outcome: expected [{expect}] got [{implCore}]" else s
+        let s := templateErrOracle s idx t implCore
         if implCore == "ok" then
-          match parseTemplates t with
-          | .ok ts => s.set r { j with live := j.live ++ [⟨t, d, ts⟩], epoch := j.epoch + 1, lastMut := some (ts.map (·.2)) }
-          | .error _ => s.emit s!"O {idx} C11 insert accepted a template the grammar rejects"
+          match specParse t with
+          | some ts => s.set r { j with live := j.live ++ [⟨t, d, ts⟩], epoch := j.epoch + 1, lastMut := some (ts.map (·.2)) }
+          | none => s.emit s!"O {idx} C11 insert accepted a template the grammar rejects"
         else s
     | .delete r t =>
       match s.get r with
@@ -224,6 +238,7 @@ def judgeStep (s : JS) (models : List (Nat × Router)) (idx : Nat) (op : Op) (im
         let expect := specDelete j t
         let ok := if expect == "err Template" then implCore.startsWith "err Template" else implCore == expect
         let s := if !ok then s.emit s!"O {idx} C09 delete outcome: expected [{expect}] got [{implCore}]" else s
+        let s := templateErrOracle s idx t implCore
         if implCore.startsWith "ok" then
           match j.live.find? (·.template == t) with
           | some lt => s.set r { j with live := j.live.filter (·.template != t), epoch := j.epoch + 1, lastMut := some (lt.exps.map (·.2)) }
@@ -234,7 +249,24 @@ def judgeStep (s : JS) (models : List (Nat × Router)) (idx : Nat) (op : Op) (im
       | none => s
       | some j => s.set r2 { j with prev := {}, lastMut := none }
     | .drop r => { s with routers := s.routers.filter (·.1 != r) }
-    | .parse _ => s
+    | .parse t =>
+      let spec := specParse t
+      let s := s.bump (if spec.isSome then "parse.accepted" else "parse.rejected")
+      if implCore.startsWith "ok" then
+        let s := if spec.isNone then s.emit s!"O {idx} C11 parser accepts a template the grammar rejects" else s
+        if spec.isSome && showSpecParsed spec != implCore then
+          let rawsOf (l : String) := ((l.drop 3).toString.splitOn ";").map (fun e => (e.splitOn "|").headD "")
+          if rawsOf (showSpecParsed spec) != rawsOf implCore then s.emit s!"O {idx} C04 expansions differ from the specification: [{showSpecParsed spec}]"
+          else s.emit s!"O {idx} C11 decoded parts differ from the specification: [{showSpecParsed spec}]"
+        else s
+      else if implCore.startsWith "err" then
+        let s := if spec.isSome then s.emit s!"O {idx} C11 parser rejects a template of the documented language" else s
+        match parseTErr ((implCore.splitOn " ").drop 1) with
+        | some e =>
+          let s := s.bump ("terr." ++ firstWord (showTErr e))
+          if !faultPresent t e then s.emit s!"O {idx} C14 reported fault is not present in the template: {implCore}" else s
+        | none => s.emit s!"O {idx} C14 unparsable template error {implCore}"
+      else s
     | .bad _ => s.emit s!"O {idx} BAD unparsable operation line"
     | .display r =>
       match s.get r with
